@@ -112,10 +112,17 @@ def is_zero_extension(par, eff):
         return False
     m = ntext(eff.target)
     c = ntext(cols)
-    for w in (m + '.shape[1]', m + '.shape[-1]'):
+    widths = [m + '.shape[1]', m + '.shape[-1]']
+    # a local that holds the current width (num_col = M.shape[1], or r, c = M.shape) is the width
+    from .common import single_defs
+    for k, v in single_defs(cur).items():
+        if ntext(v) in (m + '.shape[1]', m + '.shape[-1]'):
+            widths.append(k)
+    for w in widths:
         if holds(st, '%s < %s' % (w, c)):
             return True
-        if holds(st, '%s < %s' % (c, w), False) and holds(st, '%s == %s' % (w, c), False):
+        if holds(st, '%s < %s' % (c, w), False) and (holds(st, '%s == %s' % (w, c), False) or
+                                                     holds(st, '%s == %s' % (c, w), False)):
             return True
     return False
 
